@@ -536,6 +536,104 @@ func runC20(c *core.Ctx) {
 		o.Require(recPos, "entries must point at the object's start")
 		o.Require(recGen, "entries must record the generation")
 	})
+	c.Check("C20-R3", "pdf.FileInfo/index-complete", "the index of located objects is complete before any candidate object is parsed: no function of the scan adds to the index after (or while) it parses objects, so an indirect /Length defined behind its stream can be resolved", func(o *core.Ob) {
+		pkg := c.Prog.Pkg("pdf")
+		var fns []*core.Func
+		for _, fn := range c.Prog.Funcs(pkg) {
+			if fn.Decl.Body == nil || c.Prog.IsTestFile(fn.Decl.Pos()) {
+				continue
+			}
+			if strings.HasPrefix(fn.Key, "pdf.(*FileInfo).") || fn.Key == "pdf.SequentialScan" {
+				fns = append(fns, fn)
+			}
+		}
+		// per function: does it parse objects / add to the index itself?
+		parses := map[*types.Func]bool{}
+		indexes := map[*types.Func]bool{}
+		isIndexStore := func(fn *core.Func, v *core.V) bool {
+			info := fn.Info()
+			as, ok := v.AST.(*ast.AssignStmt)
+			if !ok {
+				return false
+			}
+			for _, l := range as.Lhs {
+				base := ast.Unparen(l)
+				if ix, ok := base.(*ast.IndexExpr); ok {
+					base = ast.Unparen(ix.X)
+				}
+				if _, ok := core.FieldSel(info, base, "pdf", "FileInfo", "objIndex"); ok {
+					return true
+				}
+				// a local map that is installed as the index
+				if id, ok := base.(*ast.Ident); ok && base != ast.Unparen(l) {
+					obj := info.ObjectOf(id)
+					installed := false
+					ast.Inspect(fn.Decl.Body, func(m ast.Node) bool {
+						if a2, ok := m.(*ast.AssignStmt); ok && len(a2.Lhs) == len(a2.Rhs) {
+							for i, l2 := range a2.Lhs {
+								if _, ok := core.FieldSel(info, l2, "pdf", "FileInfo", "objIndex"); ok && core.ObjOf(info, a2.Rhs[i]) == obj {
+									installed = true
+								}
+							}
+						}
+						return true
+					})
+					if installed {
+						return true
+					}
+				}
+			}
+			return false
+		}
+		for _, fn := range fns {
+			for _, cs := range core.CallsIn(fn.Info(), fn.Decl.Body, true) {
+				if strings.HasSuffix(cs.Key, "(*FileInfo).doRead") || strings.HasSuffix(cs.Key, ".ReadIndirectObject") {
+					parses[fn.Obj] = true
+				}
+			}
+			for _, v := range fn.Graph().Vs {
+				if isIndexStore(fn, v) {
+					indexes[fn.Obj] = true
+				}
+			}
+		}
+		n := 0
+		for _, fn := range fns {
+			g := fn.Graph()
+			info := fn.Info()
+			var ps, is []*core.V
+			for _, v := range g.Vs {
+				if v.AST == nil {
+					continue
+				}
+				if isIndexStore(fn, v) {
+					is = append(is, v)
+				}
+				for _, cs := range core.CallsIn(info, v.AST, false) {
+					if strings.HasSuffix(cs.Key, "(*FileInfo).doRead") || strings.HasSuffix(cs.Key, ".ReadIndirectObject") || (cs.Fn != nil && parses[cs.Fn] && cs.Fn != fn.Obj) {
+						ps = append(ps, v)
+					}
+					if cs.Fn != nil && indexes[cs.Fn] && cs.Fn != fn.Obj {
+						is = append(is, v)
+					}
+				}
+			}
+			if len(is) == 0 {
+				continue
+			}
+			n++
+			for _, iv := range is {
+				o.At(fn.Site(iv.AST, "adds to the index"))
+				for _, pv := range ps {
+					if pv == iv || g.PathExists(pv, iv, nil) {
+						o.FailAt(fn.Site(iv.AST, ""), "%s adds to the index of objects after an object was parsed at %s: while the earlier objects are checked, later definitions (an indirect /Length behind its stream) cannot be found", fn.Key, c.Prog.Pos(pv.AST.Pos()))
+						break
+					}
+				}
+			}
+		}
+		o.Shape(n > 0, "no function that builds the index of located objects was found")
+	})
 	c.Check("C20-R3", "pdf.SequentialScan/order", "objects are located, then indexed (last definition wins), then checked, so an indirect /Length can be resolved while checking", func(o *core.Ob) {
 		fn := c.Prog.Func("pdf", "SequentialScan")
 		g := fn.Graph()
